@@ -10,13 +10,13 @@ for d in sorted(glob.glob('/verif/seeded/S*'), key=_num):
     m = json.load(open(os.path.join(d, 'meta.json')))
     res = m['check_result'].replace('|', '/').replace('\n', ' ')
     n = _num(d)
-    rnd = 1 if n <= 28 else (2 if n <= 61 else (3 if n <= 94 else (4 if n <= 127 else (5 if n <= 160 else 6))))
+    rnd = 1 if n <= 28 else (2 if n <= 61 else (3 if n <= 94 else (4 if n <= 127 else (5 if n <= 160 else (6 if n <= 193 else 7)))))
     first = 'missed-then-fixed' if res.startswith('MISSED') else 'caught'
     rounds[rnd][first] += 1
     rows.append("| %s | %s | %s | %s |" % (m['id'], m['breaks_property'], m['needs_to_manifest'].replace('|', '/'), res))
 head = """## 14. Seeded changes: which check catches which change
 
-Six rounds of blind seeding (round 6 was steered towards non-default configurations, rare entry points, order/determinism, termination, error kinds, state after errors, feature interplay, integer width and units; round 5 was steered towards the glue around the anchored functions: call sites, configuration plumbing, persistence, memoisation, aliasing, error-path order, multi-step histories). Each seed was written by a fresh sub-agent that
+Seven rounds of blind seeding (round 7 was a last, smaller sample of 18 properties, unsteered; round 6 was steered towards non-default configurations, rare entry points, order/determinism, termination, error kinds, state after errors, feature interplay, integer width and units; round 5 was steered towards the glue around the anchored functions: call sites, configuration plumbing, persistence, memoisation, aliasing, error-path order, multi-step histories). Each seed was written by a fresh sub-agent that
 saw only the text of one property and its own scratch worktree of /repo (nothing
 from /verif), and was asked for a change that breaks the property, compiles and
 passes the existing tests, with a demonstration test. I re-verified each claim
